@@ -8,9 +8,10 @@
 use super::*;
 use crate::arrays::datatype::DataType;
 use crate::buffer::buffer_manager::DefaultBufferManager;
+use crate::arrays::array::physical_type::ScalarStorage;
 use crate::kani_verif_support::*;
 
-fn gen(p: &mut SeriesParams, cap: usize, dst: &mut [i64; 4], at: usize) -> usize {
+fn run_gen(p: &mut SeriesParams, cap: usize, dst: &mut [i64; 4], at: usize) -> usize {
     let mut out = ok(Array::new(&DefaultBufferManager, DataType::int64(), cap));
     let n = ok(p.generate_next(&mut out));
     assert!(n <= cap, "never more values than the output capacity");
@@ -38,11 +39,11 @@ fn c03_series_capacity_invariance() {
     kani::assume(step.checked_mul(5).and_then(|d| start.checked_add(d)).is_some());
     let mut whole = [0i64; 4];
     let mut parts = [0i64; 4];
-    let mut p1 = SeriesParams { curr: start, stop, step };
-    let mut p2 = SeriesParams { curr: start, stop, step };
-    let n1 = gen(&mut p1, 4, &mut whole, 0);
-    let a = gen(&mut p2, 2, &mut parts, 0);
-    let b = if a == 2 { gen(&mut p2, 2, &mut parts, 2) } else { 0 };
+    let mut p1 = SeriesParams { curr: start, stop, step, done: false };
+    let mut p2 = SeriesParams { curr: start, stop, step, done: false };
+    let n1 = run_gen(&mut p1, 4, &mut whole, 0);
+    let a = run_gen(&mut p2, 2, &mut parts, 0);
+    let b = if a == 2 { run_gen(&mut p2, 2, &mut parts, 2) } else { 0 };
     kani::cover!(n1 == 4);
     kani::cover!(n1 == 1);
     assert!(n1 == a + b, "same number of values whatever the capacity");
@@ -70,13 +71,14 @@ fn c03_series_capacity_invariance() {
 fn c03_series_near_limit() {
     let start: i64 = kani::any();
     let step: i64 = kani::any();
-    kani::assume(step > 0 && start > i64::MAX - 3 * step && start <= i64::MAX - step && step < 1 << 40);
-    let mut p = SeriesParams { curr: start, stop: i64::MAX, step };
+    kani::assume(step > 0 && step < 1 << 40);
+    kani::assume(start > i64::MAX - 3 * step && start <= i64::MAX - step);
+    let mut p = SeriesParams { curr: start, stop: i64::MAX, step, done: false };
     let mut out = [0i64; 4];
     kani::cover!(true);
-    let n = gen(&mut p, 4, &mut out, 0);
+    let n = run_gen(&mut p, 4, &mut out, 0);
     // terms start, start+step, ... while <= i64::MAX: at most 3 of them; then the series ends
     assert!(n >= 1 && n <= 3 && out[0] == start, "series ending at i64::MAX terminates");
-    let n2 = gen(&mut p, 4, &mut out, 0);
+    let n2 = run_gen(&mut p, 4, &mut out, 0);
     assert!(n2 == 0, "and stays finished");
 }
